@@ -332,7 +332,7 @@ var writeValues = []any{
 
 var writeOpts = []ojg.Options{{}, {Indent: 2}, {Tab: true}, {OmitNil: true}, {OmitEmpty: true}, {HTMLUnsafe: true}, {Color: true, KeyColor: "<k>", NoColor: "</>", SyntaxColor: "<s>"}, {Indent: 3, OmitNil: true, WriteLimit: 8}, {WriteLimit: 1}}
 
-var writeModes = []string{"text", "must", "write", "writefail", "marshal"}
+var writeModes = []string{"text", "must", "write", "writefail", "marshal", "mustwrite", "mustwritefail"}
 
 func writerCalls() []call {
 	var out []call
@@ -415,6 +415,15 @@ func subjects() []*subject {
 			case "marshal":
 				b, err := oj.Marshal(v, w)
 				return outcome{res: fmt.Sprintf("%s|%v", b, err), retained: b}
+			case "mustwrite":
+				// the panicking form called directly (no recover inside the writer runs afterwards)
+				var b bytes.Buffer
+				pn := mon.Guard(func() { w.MustWrite(&b, v) })
+				return outcome{res: fmt.Sprintf("%s|%v", b.String(), pn != nil)}
+			case "mustwritefail":
+				fw := &failWriter{left: 5}
+				pn := mon.Guard(func() { w.MustWrite(fw, v) })
+				return outcome{res: fmt.Sprintf("%s|%v", fw.String(), pn != nil)}
 			}
 			return outcome{res: w.JSON(v)}
 		})
@@ -435,6 +444,14 @@ func subjects() []*subject {
 				fw := &failWriter{left: 5}
 				err := w.Write(fw, v)
 				return outcome{res: fmt.Sprintf("%s|%v", fw.String(), err)}
+			case "mustwrite":
+				var b bytes.Buffer
+				pn := mon.Guard(func() { w.MustWrite(&b, v) })
+				return outcome{res: fmt.Sprintf("%s|%v", b.String(), pn != nil)}
+			case "mustwritefail":
+				fw := &failWriter{left: 5}
+				pn := mon.Guard(func() { w.MustWrite(fw, v) })
+				return outcome{res: fmt.Sprintf("%s|%v", fw.String(), pn != nil)}
 			}
 			return outcome{res: w.SEN(v)}
 		})
